@@ -382,7 +382,10 @@ class GpRegressor:
             # store the results for the current point
             mu_q.append(mean)
             vars.append(covariance)
-        return array(mu_q).squeeze(), array(vars).squeeze()
+        # the gradient of the mean function also contributes to the gradient mean
+        mean_grads = [self.mean.spatial_gradient(q, self.mean_hyperpars) for q in p]
+        mu_q = array(mu_q)[:, :, 0] + array(mean_grads)
+        return mu_q.squeeze(), array(vars).squeeze()
 
     def spatial_derivatives(self, points: ndarray):
         """
@@ -416,7 +419,10 @@ class GpRegressor:
             # store the results for the current point
             mu_gradients.append(dmu_dx)
             var_gradients.append(dV_dx)
-        return array(mu_gradients).squeeze(), array(var_gradients).squeeze()
+        # the gradient of the mean function also contributes to the gradient of the mean
+        mean_grads = [self.mean.spatial_gradient(q, self.mean_hyperpars) for q in p]
+        mu_gradients = array(mu_gradients)[:, :, 0] + array(mean_grads)
+        return mu_gradients.squeeze(), array(var_gradients).squeeze()
 
     def build_posterior(self, points: ndarray, mean_only=False):
         """
